@@ -106,6 +106,10 @@ func (e *End) Read(ctx context.Context) (*Rpc, error) {
 }
 
 func (e *End) Write(ctx context.Context, r *Rpc) error {
+	// a transport that honours its context: a Write entered with a finished context fails
+	if err := ctx.Err(); err != nil {
+		return err
+	}
 	select {
 	case <-e.writeFail:
 		return e.writeErr
@@ -257,6 +261,9 @@ func (s *Script) Read(ctx context.Context) (*Rpc, error) {
 }
 
 func (s *Script) Write(ctx context.Context, r *Rpc) error {
+	if err := ctx.Err(); err != nil {
+		return err
+	}
 	select {
 	case <-s.wFail:
 		return s.wErr
